@@ -51,6 +51,10 @@ claimed = {
    text="Deductive proof that TriangleIByIndex.Less is the lexicographic order (hence a strict weak order, total on distinct triples, which sort.Sort and Equals need), that TriangleI.Canonical returns the rotation with the minimum first, and that rotations canonicalise identically; the global Bowyer-Watson correctness sentence is not claimed (not_decided).",
    design_ref="8.20",
    technique="contract-based deductive verification: VCs over symbolic slices (Ackermannised selects) and integers from go/ssa, discharged by SMT (LIA)"),
+ "C15": dict(
+   text="Our side of the library boundary, proved as contracts over a ghost log of external calls (arguments recorded by value): toPoint3D keeps the axis order; the 3MF consumer issues, per received triangle, AddVertex(P(t0)), AddVertex(P(t1)), AddVertex(P(t2)) in that order and appends Triangle{V1,V2,V3} holding the three returned indices (winding kept), keeping earlier triangles; NewDXF creates layers Lines and Points; SaveDXF and the DXF consumer select layer Lines once before and never inside the loop and issue exactly one Line(p0.X,p0.Y,0,p1.X,p1.Y,0) per segment in order, then save; SVG.Line appends the segment and updates the extent to the exact componentwise min/max; SVG.Save issues Start(max.X-min.X, max.Y-min.Y), then per segment in order Line(p0.X-min.X, max.Y-p0.Y, p1.X-min.X, max.Y-p1.Y, style), then End and Close; SaveSVG/the SVG consumer feed each segment's end points in order. What go3mf, yofu/dxf and svgo write for those calls (zip, decimals, de-duplication, group codes) is ASSUMED (A6): no independent reader is involved.",
+   design_ref="8.15",
+   technique="contract-based deductive verification: per-iteration obligations over a by-value ghost log of external library calls, loop invariants over symbolic slices"),
  "C16": dict(
    text="Deductive proof, for all boxes and points, that Box2/Box3.MinMaxDist2 of the real code equal the clamp / farthest-corner oracle, and that Interval.Overlap holds iff the intervals share a value; per-path verification conditions generated from the SSA of /repo's working tree and discharged by z3 4.8.12 / z3 5.1.0.",
    design_ref="8.16",
